@@ -40,6 +40,8 @@ def draw_knobs(rng, cfg):
     k["same_object_bias"] = rng.choice([0.3, 0.6, 0.9])
     k["step_cap"] = 400000
     k["sync_start"] = rng.random() < 0.3
+    k["long_rate"] = rng.choice([0.0, 0.0, 0.1, 0.3])
+    k["p_gil"] = rng.choice([0.3, 0.6, 0.9])
     return k
 
 
@@ -98,6 +100,8 @@ def _thread_op(rng, at, knobs, shared, own, operator):
         op = W.gen_read(rng, pick)
         if op.get("other") is not None:
             op["other"] = rng.choice(live)
+    if rng.random() < knobs.get("long_rate", 0.0):
+        op = W.longify(rng, op, knobs.get("long_scale", 1.0))
     if op["op"] in W.URLISH_OPS and rng.random() < knobs["deep_rate"]:
         order = list(W.ALL_READS)
         rng.shuffle(order)
@@ -120,6 +124,8 @@ def ref_generate(seed, cfg):
     knobs = draw_knobs(rng, cfg)
     if cfg.get("force"):
         knobs.update(cfg["force"])
+    # the pure-Python quoter has no static buffer; shorter "long" texts keep instruction-level runs affordable
+    knobs["long_scale"] = 0.08 if cfg.get("backend") == "py" else 1.0
     at = W.Atoms(rng, knobs["atoms_lo"], knobs["atoms_hi"], knobs["hostile"], False)
     missing = C.apply_cache_knobs(knobs)
     ops = []
@@ -147,6 +153,8 @@ def ref_generate(seed, cfg):
             sync_op.pop("other", None) if sync_op["op"] != "cmp" else None
         else:
             sync_op = W.gen_constructor(rng, at, shared)
+            if rng.random() < knobs.get("long_rate", 0.0) * 2:
+                sync_op = W.longify(rng, sync_op, knobs.get("long_scale", 1.0))
     for t in range(nthreads):
         own = []
         for j in range(knobs["ops_per_thread"]):
